@@ -60,7 +60,8 @@ META = {
         "state is listed. R7: no uuid/random/secrets/time/os.urandom/id() value reaches a node, id or message. R8: a config "
         "field mutated in place is re-created for every MdParserConfig instance by an unconditional normalising validator "
         "(copy() is shallow); every return of MdParserConfig.copy is classified (dataclasses.replace / constructor = re-validating, "
-        "copy.copy = shallow: no field is owned, returning self = R1 violation). R9: env.myst_config is assigned on every normal path of a handler connected to builder-inited (the "
+        "copy.copy = shallow: no field is owned, returning self = R1 violation); a copy.copy(<config object>) anywhere in parse "
+        "reach counts the same way. R9: env.myst_config is assigned on every normal path of a handler connected to builder-inited (the "
         "environment is pickled between builds). R10: a subscript slot that is extended in place somewhere (node['classes'], "
         "node['names'] ...) is never assigned a mutable object owned by the config, a module global or a class. R11: the system "
         "messages returned by docutils' role/directive registry lookup (emitted only the first time a name is looked up in a "
@@ -68,7 +69,7 @@ META = {
         "earlier emissions of the process (Sphinx logging once=True, warnings.warn), one tabled build-level notice excepted. "
         "R13: a set is never turned into text (f-string, str/repr/format/%, join) unsorted - its order depends on the hash seed "
         "of the process. R14: the variable context handed to a template holds deep copies of configured values (a shallow "
-        "copy still exposes the shared dict/list objects to mutating template expressions); a by-reference fallback in the "
+        "copy still exposes the shared dict/list objects to mutating template expressions); this holds item by item too (self.ctx[k] = copy(v) copies one level only and is reported); a by-reference fallback in the "
         "handler of a failed deepcopy is accepted as best effort. R5 has no tabled exception any more (the lazily filled "
         "_inventories cache must be reset per render too). "
         "R1 also judges method calls on a module-/class-level instance of a package class whose method keeps state (writes "
@@ -2322,6 +2323,22 @@ def _field_validators(corpus: Corpus) -> dict[str, list[ast.expr]]:
     return out
 
 
+def _shallow_config_copies(ef: Effects) -> list[ast.Call]:
+    """copy.copy(<config>) anywhere in parse reach: a second MdParserConfig whose fields are the very objects of the first."""
+    def compute():
+        out = []
+        for fi in ef.c.all_functions():
+            if fi.fq not in ef.parse_reach or (fi.cls is not None and fi.cls.fq == ef.config_cls.fq):
+                continue
+            for c in walk_local(fi.node, into_lambdas=False):
+                if isinstance(c, ast.Call) and len(c.args) == 1 and not c.keywords and ef.callee_name(c, fi) in ("copy.copy",):
+                    if ef._is_config_type(c.args[0], fi) == "CONFIG":  # the object itself, not one of its field values
+                        out.append(c)
+        return out
+
+    return ef.c.cache("c15-shallow-config-copies", compute)
+
+
 @rule("C15.R8")
 def r8_field_ownership(corpus: Corpus, rep: Report, tier: str):
     rep.rule("C15.R8", "a configuration field that is mutated in place (even temporarily) is re-created for every MdParserConfig instance: copy() is shallow, only a validator that unconditionally stores a new object keeps the copies apart")
@@ -2393,10 +2410,13 @@ def r8_field_ownership(corpus: Corpus, rep: Report, tier: str):
                         why = f"{fn.qualname} stores a new object only on some paths (`{short(cfg.stmt_of(c2), 50)}` is conditional): when it is skipped, copy() leaves the copy sharing the object with the global config"
                     else:
                         why = why or f"{fn.qualname} stores `{short(val_, 40)}`, which is not (always) a newly built object"
-        shallow = [r_ for kind_, r_ in _copy_kinds(corpus) if kind_ in ("shallow", "self")]
+        shallow = [r_ for kind_, r_ in _copy_kinds(corpus) if kind_ in ("shallow", "self")] + _shallow_config_copies(ef)
         if shallow:
             owned = None
-            why = f"MdParserConfig.copy() has a path (`{short(shallow[0], 40)}`) that copies the object without running the validators, so the copy holds the very same {field} object as the configuration it was copied from"
+            if isinstance(shallow[0], ast.Call):
+                why = f"`{short(shallow[0], 40)}` ({shallow[0]._mod.rel}) makes a shallow copy of a configuration object without running the validators, so the copy holds the very same {field} object as the configuration it was copied from"
+            else:
+                why = f"MdParserConfig.copy() has a path (`{short(shallow[0], 40)}`) that copies the object without running the validators, so the copy holds the very same {field} object as the configuration it was copied from"
         if owned is not None:
             rep.ok("C15.R8", k, s.site, f"{owned.qualname} unconditionally stores a new object on the instance, so every copy() owns its {field}")
         else:
@@ -2837,6 +2857,26 @@ def _content_roots(ef: Effects, e: ast.expr, fi: FunctionInfo, depth: int = 0) -
                     if isinstance(v, ast.Constant):
                         continue
                     res += held_by(v, meth)
+                # ... and what is put into it item by item:  self.attr[k] = V
+                for c_ in [so.cls] + ef.c.mro(so.cls) + ef.c.subclasses(so.cls):
+                    for meth in c_.methods.values():
+                        for n in walk_local(meth.node, into_lambdas=False):
+                            if isinstance(n, ast.Assign) and len(n.targets) == 1 and isinstance(n.targets[0], ast.Subscript) and unparse(n.targets[0].value) == f"self.{obj.attr}":
+                                v = n.value
+                                if isinstance(v, ast.Call) and (dotted(v.func) or "").endswith("deepcopy"):
+                                    continue
+                                if isinstance(v, ast.Call) and ((dotted(v.func) or "") in _COPY_CALLS or (isinstance(v.func, ast.Attribute) and v.func.attr == "copy")):
+                                    inner = v.args[0] if v.args else v.func.value
+                                    # one level copied: what the value holds is still the shared objects
+                                    res += [(Root(r.kind, r.why + " (only the top level of the value is copied)", r.dockey, r.obj), n_, f_) for r, n_, f_ in _content_roots(ef, inner, meth, depth + 1)]
+                                    res += [(Root(r.kind, r.why + " (only the top level of the value is copied)"), v, meth) for r in ef.classify(inner, meth) if r.kind in ("CONFIG", "GLOBAL", "CLASSATTR", "SETTINGS")]
+                                else:
+                                    res += [(r, v, meth) for r in ef.classify(v, meth) if r.kind in ("CONFIG", "GLOBAL", "CLASSATTR", "SETTINGS")]
+                                    if isinstance(v, ast.Name):
+                                        # (attributed to the store, so that a by-reference fallback in an except handler is seen as one)
+                                        res += [(r, v, meth) for r, _n, _f in _content_roots(ef, v, meth, depth + 1)]
+                seen_ = set()
+                res = [x for x in res if not (id(x[1]) in seen_ or seen_.add(id(x[1])))]
                 return res
         return [(r, obj, f) for r in ef.classify(obj, f) if r.kind in ("CONFIG", "GLOBAL", "CLASSATTR", "SETTINGS")]
 
@@ -2857,6 +2897,9 @@ def _content_roots(ef: Effects, e: ast.expr, fi: FunctionInfo, depth: int = 0) -
         for kind, v, p_ in binds or []:
             if kind == "assign" and v is not None and not p_:
                 out += held_by(v, f) if not isinstance(v, (ast.Dict, ast.List, ast.Set, ast.Tuple)) else _content_roots(ef, v, f, depth + 1)
+            elif kind == "elem" and v is not None:
+                # a loop variable over a shared container is one of the shared objects itself
+                out += [(r, v, f) for r in ef.classify(v, f) if r.kind in ("CONFIG", "GLOBAL", "CLASSATTR", "SETTINGS")]
         if f is not None:
             for n in walk_local(f.node, into_lambdas=False):
                 if isinstance(n, ast.Assign) and len(n.targets) == 1 and isinstance(n.targets[0], ast.Subscript) and isinstance(n.targets[0].value, ast.Name) and n.targets[0].value.id == e.id:
@@ -3011,6 +3054,11 @@ def r2_pairing(corpus: Corpus, rep: Report, tier: str):
                     continue
                 if bad is None:
                     inplace = [s for s in body_sites + [b for b in before_sites if any(b.node.lineno > d.lineno for d, _ in defs)] if _covers(place, s.written) and (s.how.startswith("mutator") or s.written != place)]
+                    # rebinding the place to another object first (PLACE = dict(saved)) means the later in-place changes hit that object
+                    rebinds = [s for s in body_sites + before_sites if s.written == place and s.how == "store" and any(s.node.lineno > d.lineno for d, _ in defs)]
+                    if rebinds:
+                        first_rebind = min(s.node.lineno for s in rebinds)
+                        inplace = [s for s in inplace if s.node.lineno < first_rebind]
                     if inplace and any(kind == "alias" for _, kind in defs):
                         s0 = inplace[0]
                         bad = f"`{short(s0.node, 50)}` mutates the object in place while `{name}` is only an alias of it (no copy): the restore writes the mutated object back"
@@ -3426,4 +3474,30 @@ def mutants(corpus: Corpus):
     c = find_node(f, lambda n: isinstance(n, ast.Call) and (dotted(n.func) or "").endswith("deepcopy"))
     if c is not None:
         add("c15-substitutions-only-shallow-copied", "C15.R14", f, splice(base.src, c.func, "dict"), "render_substitution")
+    # --- round 12: the obligations of the recent fixes, weakened without reverting them -------------------
+    # R8: a second config object made by a shallow copy outside MdParserConfig.copy()
+    cm = corpus.mod("config.main")
+    f = cm.func("merge_file_level")
+    st = find_stmt(f, lambda n: isinstance(n, ast.Assign) and unparse(n.value) == "config.copy()")
+    if st is not None and "import dataclasses as dc\n" in cm.src:
+        add("c15-file-level-config-made-by-shallow-copy", "C15.R8", f, splice(cm.src, st.value, "shallow_copy(config)").replace("import dataclasses as dc\n", "import dataclasses as dc\nfrom copy import copy as shallow_copy\n", 1), "enable_extensions")
+    else:
+        out.append(("c15-file-level-config-made-by-shallow-copy", "new = config.copy() in merge_file_level not found"))
+    sp = corpus.func("parsers.sphinx_:MystParser.parse")
+    st = find_stmt(sp, lambda n: isinstance(n, ast.Assign) and isinstance(n.value, ast.Call) and dotted(n.value.func) == "merge_file_level")
+    if st is not None:
+        add("c15-global-config-shallow-copied-in-parse", "C15.R8", sp, splice(sp.module.src, st, _seg(sp, st) + "\n" + indent_of(sp, st) + "config = __import__('copy').copy(config)").replace("config = __import__('copy').copy(config)", "import copy as _copy\n" + indent_of(sp, st) + "config = _copy.copy(config)", 1), "enable_extensions")
+    # R14: the private substitution context copied only one level deep
+    f = base.func("DocutilsRenderer.render_substitution")
+    tr = find_stmt(f, lambda n: isinstance(n, ast.Try) and any(isinstance(c_, ast.Call) and (dotted(c_.func) or "").endswith("deepcopy") for b_ in n.body for c_ in ast.walk(b_)))
+    if tr is not None:
+        ind = indent_of(f, tr)
+        body = (
+            "self._substitutions = {}\n" + ind + "for key, value in self.md_config.substitutions.items():\n" + ind + "    try:\n" + ind + "        self._substitutions[key] = dict(value)\n"
+            + ind + "    except Exception:\n" + ind + "        self._substitutions[key] = value"
+        )
+        add("c15-substitution-values-copied-one-level-only", "C15.R14", f, splice(base.src, tr, body), "render_substitution")
+        add("c15-substitution-values-taken-item-by-item-by-reference", "C15.R14", f, splice(base.src, tr, "self._substitutions = {}\n" + ind + "for key, value in self.md_config.substitutions.items():\n" + ind + "    self._substitutions[key] = value"), "render_substitution")
+    else:
+        out.append(("c15-substitution-values-copied-one-level-only", "try: deepcopy(...) in render_substitution not found"))
     return out
